@@ -958,6 +958,286 @@ theorem C13_refused_changes_nothing (n : Node) (name : String) (r : SvcReq) (i :
       · rw [if_neg hc]; rfl
 
 
+/-- **A refused application request changes nothing** (node level; the counterpart of `C13_refused_changes_nothing`): whenever
+`[…,'application',name,r]` does not answer `success` — node not ON, nothing routed, wrong state, `fix` with nothing to
+fix, the generic `execute` on an INSTALLING application — the events it delivers leave every application object exactly as
+it was.  (`unmodelled` = the class registers its own `execute`: that operation is outside this model and excluded.) -/
+theorem C13_application_refused_changes_nothing (n : Node) (name : String) (r : AppReq) (i : AppInst)
+    (hi : n.findApp i.m.uid = some i) (h : n.appReqOut name r ≠ .status .success) (hx : n.appReqOut name r ≠ .unmodelled) :
+    i.a.applyAll (n.appEvs (.appReq name r) i) = i.a := by
+  simp only [Node.appEvs]
+  cases hon : n.isOn
+  · rfl
+  · cases hd : dget name n.appRoutes with
+    | none => rfl
+    | some u =>
+      simp only [if_true]
+      by_cases hc : u = i.m.uid ∧ i.m.cls.baseRoutes = true ∧ (r = .execute → i.m.cls.genericExecute = true) ∧ r.passes i.a.st = true
+      · rw [if_pos hc]
+        obtain ⟨hu, hb, hg, hp⟩ := hc
+        have hout : n.appReqOut name r = .status (i.a.request r).2 := by
+          unfold Node.appReqOut
+          simp only [hon, Bool.not_true, Bool.false_eq_true, if_false, hd, hu, hi, hb]
+          by_cases hr : r = .execute
+          · simp [hr, hg hr]
+          · simp [hr]
+        have hne : (i.a.request r).2 ≠ .success := fun hh => h (by rw [hout, hh])
+        have := C13_application_refused_unchanged i.a r hne
+        simp only [App.request, hp, if_true] at this
+        cases r <;> simpa [App.applyAll] using this
+      · rw [if_neg hc]; rfl
+
+/-- the heap holds one object per uid (true of every reachable node: uids are handed out by a counter) -/
+def HeapDistinct (n : Node) : Prop :=
+  (∀ i ∈ n.svcs, n.findSvc i.m.uid = some i) ∧ (∀ i ∈ n.apps, n.findApp i.m.uid = some i)
+
+theorem map_id_of_forall {α} (l : List α) (f : α → α) (h : ∀ x ∈ l, f x = x) : l.map f = l := by
+  induction l with
+  | nil => rfl
+  | cons a t ih =>
+    simp only [List.map_cons]
+    rw [h a (by simp), ih (fun x hx => h x (by simp [hx]))]
+
+/-- **A refused request leaves the WHOLE node as it was** — every service, every application, every registry, the power
+state: for service requests and for application requests alike. -/
+theorem C13_refused_node_unchanged (n : Node) (hd : HeapDistinct n) (name : String) :
+    (∀ r : SvcReq, n.svcReqOut name r ≠ .status .success → (n.step (.svcReq name r)).1 = n) ∧
+    (∀ r : AppReq, n.appReqOut name r ≠ .status .success → n.appReqOut name r ≠ .unmodelled →
+      (n.step (.appReq name r)).1 = n) := by
+  constructor
+  · intro r h
+    simp only [Node.step, Node.deliverEvs]
+    have h1 : n.svcs.map (fun i => { i with s := i.s.applyAll (n.svcEvs (.svcReq name r) i) }) = n.svcs :=
+      map_id_of_forall _ _ (fun i hi => by rw [C13_refused_changes_nothing n name r i (hd.1 i hi) h])
+    have h2 : n.apps.map (fun i => { i with a := i.a.applyAll (n.appEvs (.svcReq name r) i) }) = n.apps :=
+      map_id_of_forall _ _ (fun i _ => by
+        rw [appEvs_nil_of_quiet n _ i (by intros; simp) (by intros; simp) rfl rfl]; rfl)
+    rw [h1, h2]
+  · intro r h hx
+    simp only [Node.step, Node.deliverEvs]
+    have h1 : n.svcs.map (fun i => { i with s := i.s.applyAll (n.svcEvs (.appReq name r) i) }) = n.svcs :=
+      map_id_of_forall _ _ (fun i _ => by
+        rw [svcEvs_nil_of_quiet n _ i (by intros; simp) (by intros; simp) rfl rfl]; rfl)
+    have h2 : n.apps.map (fun i => { i with a := i.a.applyAll (n.appEvs (.appReq name r) i) }) = n.apps :=
+      map_id_of_forall _ _ (fun i hi => by rw [C13_application_refused_changes_nothing n name r i (hd.2 i hi) h hx])
+    rw [h1, h2]
+
+/-! ### `HeapDistinct` holds on every reachable node -/
+
+def HeapNodup (n : Node) : Prop := (n.svcs.map (·.m.uid)).Nodup ∧ (n.apps.map (·.m.uid)).Nodup
+
+theorem find_self_of_nodup_svc (l : List SvcInst) (h : (l.map (·.m.uid)).Nodup) (i : SvcInst) (hi : i ∈ l) :
+    l.find? (fun j => j.m.uid == i.m.uid) = some i := by
+  induction l with
+  | nil => cases hi
+  | cons a t ih =>
+    simp only [List.map_cons, List.nodup_cons] at h
+    rcases List.mem_cons.mp hi with rfl | hi
+    · exact List.find?_cons_of_pos (by simp)
+    · have hne : a.m.uid ≠ i.m.uid := fun he => h.1 (he ▸ List.mem_map.mpr ⟨i, hi, rfl⟩)
+      rw [List.find?_cons_of_neg (by simpa using hne)]
+      exact ih h.2 hi
+
+theorem find_self_of_nodup_app (l : List AppInst) (h : (l.map (·.m.uid)).Nodup) (i : AppInst) (hi : i ∈ l) :
+    l.find? (fun j => j.m.uid == i.m.uid) = some i := by
+  induction l with
+  | nil => cases hi
+  | cons a t ih =>
+    simp only [List.map_cons, List.nodup_cons] at h
+    rcases List.mem_cons.mp hi with rfl | hi
+    · exact List.find?_cons_of_pos (by simp)
+    · have hne : a.m.uid ≠ i.m.uid := fun he => h.1 (he ▸ List.mem_map.mpr ⟨i, hi, rfl⟩)
+      rw [List.find?_cons_of_neg (by simpa using hne)]
+      exact ih h.2 hi
+
+theorem heapDistinct_of_nodup (n : Node) (h : HeapNodup n) : HeapDistinct n :=
+  ⟨fun i hi => find_self_of_nodup_svc n.svcs h.1 i hi, fun i hi => find_self_of_nodup_app n.apps h.2 i hi⟩
+
+/-- the uids in the heap after one operation: as before, or with the fresh uid `n.next` appended -/
+theorem step_heap_uids (n : Node) (op : Op) :
+    ((n.step op).1.svcs.map (·.m.uid) = n.svcs.map (·.m.uid) ∨
+      (n.step op).1.svcs.map (·.m.uid) = n.svcs.map (·.m.uid) ++ [n.next]) ∧
+    ((n.step op).1.apps.map (·.m.uid) = n.apps.map (·.m.uid) ∨
+      (n.step op).1.apps.map (·.m.uid) = n.apps.map (·.m.uid) ++ [n.next]) := by
+  have same : ∀ n' : Node, n'.svcs = n.svcs → n'.apps = n.apps →
+      (n'.svcs.map (·.m.uid) = n.svcs.map (·.m.uid) ∨ n'.svcs.map (·.m.uid) = n.svcs.map (·.m.uid) ++ [n.next]) ∧
+      (n'.apps.map (·.m.uid) = n.apps.map (·.m.uid) ∨ n'.apps.map (·.m.uid) = n.apps.map (·.m.uid) ++ [n.next]) :=
+    fun n' h1 h2 => ⟨Or.inl (by rw [h1]), Or.inl (by rw [h2])⟩
+  have deliv : ∀ (n' : Node) (o : Op), n'.svcs = (n.deliverEvs o).svcs → n'.apps = (n.deliverEvs o).apps →
+      (n'.svcs.map (·.m.uid) = n.svcs.map (·.m.uid) ∨ n'.svcs.map (·.m.uid) = n.svcs.map (·.m.uid) ++ [n.next]) ∧
+      (n'.apps.map (·.m.uid) = n.apps.map (·.m.uid) ∨ n'.apps.map (·.m.uid) = n.apps.map (·.m.uid) ++ [n.next]) := by
+    intro n' o h1 h2
+    refine ⟨Or.inl ?_, Or.inl ?_⟩
+    · rw [h1]; simp [Node.deliverEvs, List.map_map, Function.comp_def]
+    · rw [h2]; simp [Node.deliverEvs, List.map_map, Function.comp_def]
+  cases op with
+  | installSvc c cfg l hl f =>
+    simp only [Node.step]
+    cases hi : n.installSvc c cfg l hl f with
+    | none => exact same n rfl rfl
+    | some n' =>
+      obtain ⟨hs, ha, _⟩ := installSvc_heap n n' c cfg l hl f hi
+      refine ⟨?_, Or.inl (by rw [ha])⟩
+      rcases hs with hs | hs
+      · exact Or.inl (by rw [hs])
+      · exact Or.inr (by rw [hs]; simp [newSvc])
+  | installApp c cfg l hl f =>
+    simp only [Node.step]
+    cases hi : n.installApp c cfg l hl f with
+    | none => exact same n rfl rfl
+    | some n' =>
+      obtain ⟨hs, ha, _⟩ := installApp_heap n n' c cfg l hl f hi
+      refine ⟨Or.inl (by rw [hs]), ?_⟩
+      rcases ha with ha | ⟨ha, _⟩
+      · exact Or.inl (by rw [ha])
+      · exact Or.inr (by rw [ha]; simp [newApp])
+  | uninstall name =>
+    simp only [Node.step]
+    cases hu : n.uninstall name with
+    | none => exact same n rfl rfl
+    | some n' =>
+      obtain ⟨h1, h2, _, _⟩ := uninstall_heap n n' name hu
+      exact same n' h1 h2
+  | reqInstall name c =>
+    simp only [Node.step]
+    split
+    · exact same n rfl rfl
+    · split
+      · exact same n rfl rfl
+      · cases c with
+        | none => exact same n rfl rfl
+        | some cl =>
+          obtain ⟨c, l⟩ := cl
+          cases hi : n.installApp c false l .good 2 with
+          | none => simp only [hi]; exact ⟨Or.inl trivial, Or.inl trivial⟩
+          | some n1 =>
+            obtain ⟨hs, ha, _⟩ := installApp_heap n n1 c false l .good 2 hi
+            simp only [hi]
+            have key : (n1.svcs.map (·.m.uid) = n.svcs.map (·.m.uid) ∨ n1.svcs.map (·.m.uid) = n.svcs.map (·.m.uid) ++ [n.next]) ∧
+                (n1.apps.map (·.m.uid) = n.apps.map (·.m.uid) ∨ n1.apps.map (·.m.uid) = n.apps.map (·.m.uid) ++ [n.next]) := by
+              refine ⟨Or.inl (by rw [hs]), ?_⟩
+              rcases ha with ha | ⟨ha, _⟩
+              · exact Or.inl (by rw [ha])
+              · exact Or.inr (by rw [ha]; simp [newApp])
+            split
+            · refine ⟨key.1, ?_⟩
+              have : (n1.apps.map (fun i => ({ i with a := if i.m.uid = n.next then i.a.install else i.a } : AppInst))).map (·.m.uid) =
+                  n1.apps.map (·.m.uid) := by simp [List.map_map, Function.comp_def]
+              show (n1.apps.map _).map _ = _ ∨ (n1.apps.map _).map _ = _
+              rw [this]; exact key.2
+            · exact key
+  | reqUninstall name =>
+    simp only [Node.step]
+    split
+    · exact same n rfl rfl
+    · split
+      · exact same n rfl rfl
+      · cases hu : n.uninstall name with
+        | none => exact same n rfl rfl
+        | some n' =>
+          obtain ⟨h1, h2, _, _⟩ := uninstall_heap n n' name hu
+          exact same n' h1 h2
+  | svcReq name r => exact deliv _ _ rfl rfl
+  | appReq name r => exact deliv _ _ rfl rfl
+  | svcApi u e =>
+    simp only [Node.step]
+    split
+    · split
+      · exact same n rfl rfl
+      · exact deliv _ _ rfl rfl
+    · exact same n rfl rfl
+  | appApi u e =>
+    simp only [Node.step]
+    split
+    · split
+      · exact same n rfl rfl
+      · exact deliv _ _ rfl rfl
+    · exact same n rfl rfl
+  | tick =>
+    simp only [Node.step]
+    split
+    · exact same n rfl rfl
+    · exact deliv _ .tick rfl rfl
+  | powerOn =>
+    simp only [Node.step]
+    split
+    · exact deliv _ .powerOn rfl rfl
+    · split <;> exact same _ rfl rfl
+  | powerOff =>
+    simp only [Node.step]
+    split
+    · exact deliv _ .powerOff rfl rfl
+    · split <;> exact same _ rfl rfl
+  | reqStartup =>
+    simp only [Node.step]
+    split
+    · exact same _ rfl rfl
+    · split
+      · exact deliv _ .reqStartup rfl rfl
+      · exact same _ rfl rfl
+  | reqShutdown =>
+    simp only [Node.step]
+    split
+    · exact same _ rfl rfl
+    · split
+      · exact deliv _ .reqShutdown rfl rfl
+      · exact same _ rfl rfl
+  | deliver p pr sc => exact same _ rfl rfl
+  | frame hd sc => simp only [Node.step]; split <;> exact same _ rfl rfl
+  | send u => simp only [Node.step]; split <;> exact same _ rfl rfl
+
+theorem nodup_append_fresh (l : List Nat) (k : Nat) (h : l.Nodup) (hlt : ∀ x ∈ l, x < k) : (l ++ [k]).Nodup := by
+  rw [List.nodup_append]
+  refine ⟨h, by simp, ?_⟩
+  intro a ha b hb
+  simp only [List.mem_singleton] at hb
+  subst hb
+  exact Nat.ne_of_lt (hlt a ha)
+
+theorem heapNodup_step (n : Node) (es : List Entry) (hr : Rep n es) (h : HeapNodup n) (op : Op) : HeapNodup (n.step op).1 := by
+  obtain ⟨hs, ha⟩ := step_heap_uids n op
+  constructor
+  · rcases hs with hs | hs
+    · rw [hs]; exact h.1
+    · rw [hs]
+      refine nodup_append_fresh _ _ h.1 ?_
+      intro x hx
+      obtain ⟨i, hi, rfl⟩ := List.mem_map.mp hx
+      exact hr.heapSvcLt i hi
+  · rcases ha with ha | ha
+    · rw [ha]; exact h.2
+    · rw [ha]
+      refine nodup_append_fresh _ _ h.2 ?_
+      intro x hx
+      obtain ⟨i, hi, rfl⟩ := List.mem_map.mp hx
+      exact hr.heapAppLt i hi
+
+theorem heapNodup_run (ops : List Op) (n : Node) (es : List Entry) (hr : Rep n es) (h : HeapNodup n) : HeapNodup (n.run ops) := by
+  induction ops generalizing n es with
+  | nil => exact h
+  | cons op ops ih =>
+    obtain ⟨es1, h1⟩ := rep_step n es hr op
+    exact ih _ es1 h1 (heapNodup_step n es hr h op)
+
+/-- **On every node reachable from the empty one, a refused request — service or application — leaves the whole node as
+it was** (`HeapDistinct` is an invariant: uids are handed out by a counter). -/
+theorem C13_refused_changes_nothing_reachable (p : Power) (up down : Int) (ops : List Op) (name : String) :
+    let n := Node.run { power := p, upDur := up, downDur := down } ops
+    (∀ r : SvcReq, n.svcReqOut name r ≠ .status .success → (n.step (.svcReq name r)).1 = n) ∧
+    (∀ r : AppReq, n.appReqOut name r ≠ .status .success → n.appReqOut name r ≠ .unmodelled →
+      (n.step (.appReq name r)).1 = n) := by
+  intro n
+  have hn : HeapNodup n := heapNodup_run ops _ [] (C13_rep_init p up down) ⟨by simp, by simp⟩
+  exact C13_refused_node_unchanged n (heapDistinct_of_nodup n hn) name
+
+/-- non-vacuity: an INSTALLING application refuses `close` and the generic `execute`, a CLOSED one refuses `scan`; the node is
+unchanged each time -/
+example :
+    let c : Cls := { name := "database-client", port := 5432, proto := 1 }
+    let n := ({} : Node).run [.reqInstall "database-client" (some (c, []))]
+    n.appReqOut "database-client" .close = .status .failure ∧ n.appReqOut "database-client" .execute = .status .failure ∧
+    ((n.step (.appReq "database-client" .execute)).1.findApp 0).map (·.a.st) = some .installing := by decide
+
 /-- non-vacuity: a RUNNING service routed on an ON node accepts `pause`, refuses `start` -/
 example :
     let n : Node := ({} : Node).registerSvc { name := "dns-client", port := 53, proto := 1 } [] .good 2
